@@ -242,3 +242,7 @@ contract(
     ensures_exc={"an-unrecognised-operator-opens-nothing-or-the-open-failed": "len(log('open')) <= 1"},
     from_property="stdout and stderr end up - completely and only - where the redirect operators say ... `a>`/`&>` both ... conflicting or malformed redirects are reported as errors",
 )
+
+
+# resolve_args_list (a malformed redirect is passed on unchanged, to be rejected - never cut down to its first word) lives with C04's contract
+from contracts import C04_expand  # noqa: E402,F401
